@@ -31,7 +31,7 @@ MODELS = {
 
 
 def canon(x):
-    return json.dumps(x, sort_keys=True, separators=(",", ":"))
+    return json.dumps(x, sort_keys=True, separators=(",", ":"), default=str)
 
 
 def input_key(act, transport=None):
@@ -314,7 +314,15 @@ def reply_matches(spec, obs, scale):
         if spec["idle"]:
             return True     # AS-IS: what poll says when nothing is outstanding is not fixed by a property
         return obs["until_ms"] == spec["until"] * scale
-    return all(obs.get(f) == v for f, v in spec.items())
+    return all(obs.get(f) == v or obs.get(f) is ANY for f, v in spec.items())
+
+
+class _Any:
+    def __repr__(self):
+        return "<any>"
+
+
+ANY = _Any()
 
 
 def obs_of_state(st):
@@ -382,6 +390,29 @@ def c15_local(events):
 def follow(l, scale, transport, events, probe_after_drop_owner=True):
     """follow one observed run through the LTS.  Returns (steps_followed, nondet, Mismatch|None, truncated)"""
     r = _follow(l, scale, transport, events)
+    if r[2] is not None and "C07" not in r[2].props and r[0] < len(events):
+        # C07 speaks about requests that CARRIED an integrity attribute.  If the run stopped because a request went out
+        # with other bytes than were handed to send() and those bytes differ in exactly that respect (an agent that signs
+        # or strips on its own), follow the run once more with the request taken as what was on the wire and without
+        # looking at payload contents: what C07 demands of the responses that follow is then still decided.
+        ev = events[r[0]]
+        ret = ev.get("ret", {})
+        if ev.get("a") == "send" and ev.get("cls") == "request" and ret.get("k") == "transmit" and ret.get("pay") == "ALTERED" \
+                and ret.get("wire_sealed") in (True, False) and ret["wire_sealed"] != (ev["sealed"] not in (False, "none")):
+            wired = []
+            for e in events:
+                e2 = dict(e)
+                rr = e2.get("ret", {})
+                if e2.get("a") == "send" and e2.get("cls") == "request" and rr.get("wire_sealed") in (True, False):
+                    e2["sealed"] = rr["wire_sealed"]
+                if rr.get("pay") == "ALTERED":
+                    e2["ret"] = dict(rr, pay=e2.get("pay") if e2.get("a") == "send" else ANY)
+                wired.append(e2)
+            r2 = _follow(l, scale, transport, wired)
+            if r2[2] is not None and "C07" in r2[2].props:
+                r[2].props.append("C07")
+                r[2].what += " | taking the request as transmitted (integrity attribute %s): %s" % (
+                    "present" if ret["wire_sealed"] else "absent", r2[2].what)
     if r[2] is None or "C15" not in r[2].props:
         loc = c15_local(events)
         if loc is not None:
